@@ -11,6 +11,20 @@
 pub mod std {
     pub use ::std::*;
 
+    pub mod process {
+        //! `std::process` with `exit` routed to the simulator: the simulated process ends
+        //! there (whichever task calls it), with its history recorded.
+        pub use ::std::process::*;
+
+        pub fn exit(code: i32) -> ! {
+            // exiting is not instantaneous: between the caller's last statement and the moment the
+            // process is gone the other threads keep running — a scheduling point (and, under the
+            // stall policy, possibly a long one)
+            crate::world::before_publish();
+            crate::world::finish("exit", Some(code & 0xff), "process::exit")
+        }
+    }
+
     pub mod thread {
         //! `std::thread` facade. A panic inside a spawned thread is contained
         //! the way the OS contains it: the thread dies, what it owned is
